@@ -1,4 +1,5 @@
 import QibProofs.Lemmas.FermiExec
+import QibProofs.Lemmas.FermiTol
 /-!
 C10 — Second-quantised operators obey the fermionic algebra.
 
@@ -292,6 +293,33 @@ theorem C10_op_hermitianFlag_sound (L : ℕ) (op : FieldOp) (hwf : ∀ t ∈ op.
     exact Term.isHermitian_sound L t (hwf t ht) (h t ht)
   · exact ⟨fun h => (by cases h), Or.inr rfl⟩
 
+/-- the flag as the code computes it, with the tolerances of `np.allclose` (`|a - b| ≤ atol + rtol |b|`, decided exactly
+on the rationals by `Term.closeTol`): the executable test implies the real inequality, and with zero tolerances the
+flag is the exact one of `C10_hermitianFlag_sound` -/
+theorem C10_hermitianFlag_allclose (atol rtol : ℚ) (ha : 0 ≤ atol) (hr : 0 ≤ rtol) :
+    (∀ a b : Qib.GQ, Term.closeTol atol rtol a b = true → ‖gqC a - gqC b‖ ≤ (atol : ℝ) + (rtol : ℝ) * ‖gqC b‖) ∧
+    (∀ t : Term, t.isHermitianTol 0 0 = t.isHermitian) :=
+  ⟨closeTol_sound atol rtol ha hr, Term.isHermitianTol_zero⟩
+
+/-- a term flagged Hermitian under tolerances `(atol, rtol)` is Hermitian up to the allowance the tolerances give:
+every entry of `M - Mᴴ` is bounded by `Σ_idx (atol + rtol |coeffs[reversed idx]|)` (each ladder string has entries of
+modulus ≤ 1) -/
+theorem C10_hermitianFlag_tol (L : ℕ) (t : Term) (hwf : t.WF) (atol rtol : ℚ) (ha : 0 ≤ atol) (hr : 0 ≤ rtol)
+    (h : t.isHermitianTol atol rtol = true) (r c : Fin L → Bool) :
+    ‖(t.mat L - (t.mat L)ᴴ) r c‖ ≤
+      ((multiIndices t.coeffs.shape).map fun idx => (atol : ℝ) + (rtol : ℝ) * ‖gqC (t.coeffs.get idx.reverse)‖).sum :=
+  Term.isHermitianTol_bound L t hwf atol rtol ha hr h r c
+
+/-- the same for `FieldOperator.is_hermitian()` -/
+theorem C10_op_hermitianFlag_tol (L : ℕ) (op : FieldOp) (hwf : ∀ t ∈ op.terms, t.WF) (atol rtol : ℚ)
+    (ha : 0 ≤ atol) (hr : 0 ≤ rtol) (h : op.isHermitianTol atol rtol = .ok true) (r c : Fin L → Bool) :
+    ‖(op.mat L - (op.mat L)ᴴ) r c‖ ≤ (op.terms.map (Term.tolAllowance atol rtol)).sum :=
+  FieldOp.isHermitianTol_bound L op hwf atol rtol ha hr h r c
+
+/-- every entry of an ordered product of ladder matrices has modulus at most 1 -/
+theorem C10_string_entry_le (L : ℕ) (ds : List IFODesc) (js : List ℕ) (r c : Fin L → Bool) :
+    ‖stringM L ds js r c‖ ≤ 1 := stringM_entry_le L ds js r c
+
 /-! ### non-vacuity (tests, not proofs of the property) -/
 
 def exField : FieldD := ⟨0, .fermion, 2⟩
@@ -309,6 +337,10 @@ example : (FieldOp.mk [exTerm]).fields = [exField] ∧ exField.ptype = .fermion 
 example : exRect.WF ∧ exRect.isHermitian = false := by unfold Term.WF; decide
 example : (FieldOp.mk [exTerm]).isHermitian = .ok true ∧
     (FieldOp.mk [exTerm, exRect]).isHermitian = .error .notImplementedError := by decide
+/-- a coefficient off by 2⁻³⁰ is still flagged under NumPy's default tolerances, not under zero tolerances -/
+def exNear : Term :=
+  ⟨[⟨exField, .fermiCreate⟩, ⟨exField, .fermiAnnihil⟩], ⟨[2, 2], #[⟨1, 0⟩, ⟨2 + 1 / 2 ^ 30, 1⟩, ⟨2, -1⟩, ⟨3, 0⟩]⟩⟩
+example : exNear.isHermitianTol (1 / 10 ^ 8) (1 / 10 ^ 5) = true ∧ exNear.isHermitian = false := by decide +kernel
 example : Term.make exTerm.opdesc ⟨[2], #[0, 0]⟩ = .error .valueError := by decide
 example : (FieldOp.mk []).asMatrix = .error .notImplementedError := rfl
 /-- `clist[0]` on two sites is `kron(U, Z)`: rows `[0,0,0,0], [0,0,0,0], [1,0,0,0], [0,-1,0,0]` -/
